@@ -257,6 +257,26 @@ func c14run(c *engine.Ctx, keys []c14key, hist []c14op, record bool) string {
 			viol("equal-to-twin", fmt.Sprintf("(== h g) = %s for twin g with the same content %v", a, model))
 		}
 	}
+	// ---- what the observers return belongs to the caller: writing into the array of (keys h), or growing it after the
+	// hash itself has grown, changes nothing in the hash
+	if record {
+		var ks []string
+		for _, e := range model {
+			ks = append(ks, keys[e.k].shown(env))
+		}
+		zy.Eval(env, "(def kk (keys h))")
+		zy.Eval(env, "(cond (> (len kk) 0) (aset kk 0 (quote zz9)) nil)")
+		obs("keys-after-aset-on-result", "(keys h)", "["+strings.Join(ks, " ")+"]")
+		obs("len-after-aset-on-result", "(len h)", strconv.Itoa(len(model)))
+		zy.Eval(env, "(def kk (keys h))")
+		zy.Eval(env, "(hset h (quote fresh9) 5)")
+		zy.Eval(env, "(def kk2 (append kk (quote zz9)))")
+		obs("keys-after-append-on-result", "(keys h)", "["+strings.Join(append(append([]string{}, ks...), "fresh9"), " ")+"]")
+		obs("kept-keys-after-hset", "kk", "["+strings.Join(ks, " ")+"]")
+		obs("hget-after-append-on-result", "(hget h (quote fresh9))", "5")
+		zy.Eval(env, "(hdel h (quote fresh9))")
+		obs("keys-after-hdel", "(keys h)", "["+strings.Join(ks, " ")+"]")
+	}
 	if record {
 		c.Outcome(outcome.String())
 	}
@@ -296,7 +316,7 @@ func init() {
 		ID:    "C14",
 		Level: "model_checking",
 		Rule: "explicit-state BFS over histories of hset(k,v)/hdel(k) on one real SexpHash (fresh interpreter per history, replay + 1 op); " +
-			"state key = KeyOrder + NumKeys + bucket dump; after every step the observer battery (len, keys, hget, hget-default, hpair i, range, str, json, msgpack, ==) " +
+			"state key = KeyOrder + NumKeys + bucket dump; after every step the observer battery (len, keys, hget, hget-default, hpair i, range, str, json, msgpack, ==; then writes into / growth of the array that keys returned, around a further hset) " +
 			"is compared with an ordered-map model and a twin hash built by plain insertion; distinct_nontrivial = distinct observer vectors",
 		Assumptions: []string{
 			"key universe: symbol, string, int, char, one-element array, int colliding with the symbol's bucket, int colliding with the string's bucket (thorough: + two-element array, a second symbol)",
